@@ -463,6 +463,8 @@ def _state_after(ctx, kind, prev_state, op, out):
             return 'created'
         if last[0] == 'exc' and last[1] == 'RuntimeError' and 'already running' in repr(last[2]):
             return prev_state
+        if last[0] == 'exc' and last[1] == 'RuntimeError' and 'ignored GeneratorExit' in repr(last[2]):
+            return 'susp-unknown'
         return 'finished'
     if out[0] == 'yield':
         return _yield_state(ctx, out[1])
